@@ -71,10 +71,12 @@ Definition PN_LOCAL_noesc : rex cclass :=
 Definition full_range : cclass := [(0, 1114111)].
 Definition any_char : rex cclass := Lf full_range.
 (* every character except '.', 'e', 'E' *)
-Definition not_dot_e : rex cclass := Lf [(0, 45); (47, 68); (70, 100); (102, 1114111)].
+Definition cls_not_dot_e : cclass := [(0, 45); (47, 68); (70, 100); (102, 1114111)].
+Definition not_dot_e : rex cclass := Lf cls_not_dot_e.
 (* words without '.', 'e', 'E' / words containing '.' / words containing 'e' or 'E' *)
 Definition NO_DOT_E : rex cclass := Star not_dot_e.
-Definition not_e : rex cclass := Lf [(0, 68); (70, 100); (102, 1114111)].
+Definition cls_not_e : cclass := [(0, 68); (70, 100); (102, 1114111)].
+Definition not_e : rex cclass := Lf cls_not_e.
 Definition HAS_DOT_NO_E : rex cclass := cats [Star not_e; t_dot; Star not_e].
 Definition HAS_E : rex cclass := cats [Star any_char; Lf [(c_E, c_E); (c_e, c_e)]; Star any_char].
 (* words containing a backslash *)
